@@ -3279,7 +3279,12 @@ impl Translator {
         let accessed_ty = self.get_ty(mono, accessed.node()).unwrap();
 
         match accessed_ty {
-            Type::Nominal(Nominal::Struct(struct_def), _) => {
+            Type::Nominal(Nominal::Struct(struct_def), params) => {
+                // a field whose type is a type parameter of the struct may be instantiated with void
+                let struct_mono = MonomorphEnv::empty();
+                for (ty_arg, param) in struct_def.ty_args.iter().zip(params) {
+                    struct_mono.extend(PolytypeDeclaration::Ordinary(ty_arg.clone()), param);
+                }
                 let mut index = 0;
                 // TODO duplicated logic
                 for field in &*struct_def.fields {
@@ -3287,7 +3292,7 @@ impl Translator {
                         return index as u16;
                     }
                     let field_ty = field.ty.to_solved_type(statics).unwrap();
-                    if field_ty != SolvedType::Void {
+                    if field_ty.subst(&struct_mono) != SolvedType::Void {
                         index += 1;
                     }
                 }
